@@ -580,6 +580,20 @@ def _array(pe, x, copy=True):
     if isinstance(x, Arr):
         return x.copy() if copy else x
     if isinstance(x, (list, tuple)):
+        if getattr(pe, "np_scalars", False):
+            from .fsmodel import NpScalar
+
+            def plain(v):
+                if isinstance(v, (list, tuple)):
+                    return [plain(e) for e in v]
+                if isinstance(v, Arr):
+                    return [plain(e) for e in v]
+                return v.value if isinstance(v, NpScalar) else v
+
+            r = Arr.from_nested(_unnest(pe, plain(x)))
+            # the array's type as numpy infers it: one float makes every element a float
+            r.dtype = "np:int64" if all(isinstance(v, int) and not isinstance(v, bool) for v in r.flat()) else "np:float64"
+            return r
         return Arr.from_nested(_unnest(pe, x))
     return x  # 0-d array of a scalar behaves as the scalar for our purposes
 
